@@ -5,6 +5,7 @@
 #include "nmtools/meta.hpp"
 #include "nmtools/array/index/nonzero.hpp"
 #include "nmtools/array/index/compute_indices.hpp"
+#include "nmtools/array/index/normalize_axis.hpp"
 #include "nmtools/array/index/sum.hpp"
 #include "nmtools/array/index/where.hpp"
 #include "nmtools/array/index/count.hpp"
@@ -16,8 +17,10 @@ namespace nmtools::index
     struct compress_t {};
 
     template <typename condition_t, typename shape_t, typename axis_t>
-    constexpr auto shape_compress(const condition_t& condition, const shape_t& shape, [[maybe_unused]] const axis_t axis)
+    constexpr auto shape_compress(const condition_t& condition, const shape_t& shape, [[maybe_unused]] const axis_t axis_)
     {
+        // a negative axis counts from the last axis (numpy); None is passed through
+        [[maybe_unused]] const auto axis = wrap_axis(axis_, len(shape));
         using return_t = meta::resolve_optype_t<shape_compress_t,condition_t,shape_t,axis_t>;
 
         auto res = return_t{};
@@ -79,8 +82,10 @@ namespace nmtools::index
     } // shape_compress
 
     template <typename indices_t, typename condition_t, typename shape_t, typename axis_t>
-    constexpr auto compress(const indices_t& indices, const condition_t& condition, const shape_t& shape, axis_t axis)
+    constexpr auto compress(const indices_t& indices, const condition_t& condition, const shape_t& shape, axis_t axis_)
     {
+        // a negative axis counts from the last axis (numpy); None is passed through
+        [[maybe_unused]] const auto axis = wrap_axis(axis_, len(shape));
         using return_t = meta::resolve_optype_t<compress_t,indices_t,condition_t,shape_t,axis_t>;
         static_assert (!meta::is_void_v<return_t>
             , "unsupported index::compress, couldn't deduce return type");
